@@ -1,7 +1,25 @@
 /-
-  Model of class `Adj` (lib/gnu_gama/adj/adj.cpp): homogenisation for the full solvers,
-  delegation for the sparse one, `x`, `r`, `rtr`, `q_xx`, `q_bb`.
-  STUB: to be replaced by the real model.
+  Model of class `Adj` (lib/gnu_gama/adj/adj.cpp): history-free answers of a fresh object.
+
+  `init_least_squares`:
+    * the regularisation list of the input data (if one is stored) is handed to the solver
+      (`min_x(dim, list)`); `minx none` / `minx all` of the protocol store no list, so the solver
+      keeps its default;
+    * sparse solver (envelope): `x`, `r`, `rtr` are the solver's, on the original (A, b, C);
+    * full solvers (gso, svd, cholesky): `A_dot`, `b_dot` are homogenised block by block —
+      `CovMat::cholDec` (LDLᵀ, `pivot ≤ N·ε·max diag → NonPositiveDefinite`, `N = 0 → BadRank`),
+      `Adj::choldec` (scaling to a Cholesky factor `L̃`), `Adj::forwardSubstitution` of `b` and of
+      every column of `A`; the solver gets `(A_dot, b_dot)`; `rtr = vᵀv` of ITS residuals;
+      `r_(i) = Σ a_ik x_k - rhs(i)` with the ORIGINAL sparse row and right-hand side;
+    * `q_xx` delegated; `q_bb(i,j) = Σ_{jn} a_j,jn · (Σ_{in} a_i,in · q0_xx(in, jn))` over the
+      ORIGINAL sparse rows.
+
+  The homogenisation is restated densely: the block is expanded to the dense symmetric matrix
+  (zeros outside the band) and factored / substituted over all indices.  On a band matrix the
+  arithmetic on the entries inside the band is the C++ one, the entries outside stay exactly 0
+  (`0 - (0/pivot)·x`), so the two agree; the band-limited pointer walk itself is the subject of
+  C10 (`Model/BandChol.lean`).  The elimination step is `Chol.elim` with the identity ordering
+  (the same `S -= v vᵀ/pivot`, column `/= pivot`).
 -/
 import Gama.Model.Ls.Common
 import Gama.Model.Ls.Env
@@ -14,7 +32,113 @@ variable {K : Type} [Scalar K]
 def solverOf : Alg → Solver K
   | .env => envSolve | .chol => cholSolve | .gso => gsoSolve | .svd => svdSolve
 
+namespace AdjM
+open Dn
+
+/-- `std::numeric_limits<double>::epsilon()` = 2⁻⁵² -/
+def epsilon : K := Scalar.ofNat 1 / Scalar.ofNat 4503599627370496
+
+/-- number of packed elements before row `r` (0-based) of a `dim`/`width` block -/
+def rowOff (dim width r : Nat) : Nat :=
+  (List.range r).foldl (fun s r' => s + (min dim (r' + width + 1) - r')) 0
+
+/-- the block as a dense symmetric matrix, one triangle stored (`v ≤ u`), zeros outside the band -/
+def blockDense (b : CovBlock K) : DMat K :=
+  mmk b.dim b.dim fun u v =>
+    if v ≤ u then (if u ≤ v + b.width then vget b.v (rowOff b.dim b.width v + (u - v)) else 0) else 0
+
+/-- `q = 0; for row: q = max(B[n], q)` -/
+def maxDiag (d : Nat) (a : DMat K) : K :=
+  (List.range d).foldl (fun q i => Scalar.max (mget a i i) q) (0 : K)
+
+/-- rows `row, row+1, …` of `CovMat::cholDec` (`fuel = N - row`) -/
+def ldlRows (d : Nat) (tol : K) : Nat → Nat → DMat K → Except ErrKind (DMat K)
+  | 0, _, a => .ok a
+  | fuel + 1, row, a =>
+    let pivot := mget a row row
+    if pivot ≤ tol then .error .NonPositiveDefinite
+    else ldlRows d tol fuel (row + 1) (Chol.elim d (pmk d id) row pivot a)
+
+/-- `CovMat::cholDec` -/
+def ldl (d : Nat) (a : DMat K) : Except ErrKind (DMat K) :=
+  if d = 0 then .error .BadRank else
+  ldlRows d (Scalar.ofNat d * (epsilon : K) * maxDiag d a) d 0 a
+
+/-- scaling loop of `Adj::choldec`: `d = sqrt(chol(i,i)); chol(i,i) = d; chol(i,j) *= d` -/
+def scaleChol (d : Nat) (a : DMat K) : DMat K :=
+  mmk d d fun u v =>
+    if v ≤ u then (if u = v then Scalar.sqrt (mget a u u) else mget a u v * Scalar.sqrt (mget a v v)) else 0
+
+/-- `Adj::choldec`: lower Cholesky factor `L̃` (stored `v ≤ u`) -/
+def choldec (b : CovBlock K) : Except ErrKind (DMat K) :=
+  if b.dim ≤ b.width ∧ b.dim ≠ 0 then .error .NotModelled else
+  (ldl b.dim (blockDense b)).map (scaleChol b.dim)
+
+/-- `Adj::forwardSubstitution`: `for i: for j < i: v(i) -= chol(i,j)·v(j); v(i) /= chol(i,i)` -/
+def forwardSubst (d : Nat) (L : DMat K) (v : Array K) : Array K :=
+  (List.range d).foldl (fun (x : Array K) i =>
+      x.setIfInBounds i (subFrom (vget x i) 0 i (fun j => mget L i j * vget x j) / mget L i i)) v
+
+/-- homogenised `(A_dot, b_dot)` (dense `m × n`, `m`) -/
+def homogenise (p : Problem K) : Except ErrKind (DMat K × Array K) :=
+  let A := p.dense
+  let step := fun (st : Nat × Array (Array K) × Array K) (blk : CovBlock K) => do
+    let L ← choldec blk
+    let r := st.1
+    let d := blk.dim
+    let t := forwardSubst d L (vmk d fun i => vget p.rhs (r + i))
+    let cols : Array (Array K) := Array.ofFn (n := p.n) fun j =>
+      forwardSubst d L (vmk d fun i => mget A (r + i) j.val)
+    let rowsNew : Array (Array K) := Array.ofFn (n := d) fun i => vmk p.n fun j => vget (cols.getD j #[]) i.val
+    pure (r + d, st.2.1 ++ rowsNew, st.2.2 ++ t)
+  (p.cov.foldlM step (0, #[], #[])).map fun st => (st.2.1, st.2.2)
+
+/-- the unit-covariance problem handed to a full solver -/
+def dotProblem (p : Problem K) (Ad : DMat K) (bd : Array K) (reg : Reg) : Problem K :=
+  { m := p.m, n := p.n
+    rows := Array.ofFn (n := p.m) fun i => Array.ofFn (n := p.n) fun j => (j.val + 1, mget Ad i.val j.val)
+    cov := #[⟨p.m, 0, Array.replicate p.m (Scalar.ofNat 1)⟩]
+    rhs := bd
+    reg := reg }
+
+/-- `r_(i) = Σ a·x_(col) - rhs(i)` over the stored sparse row -/
+def origResiduals (p : Problem K) (x : Array K) : Array K :=
+  vmk p.m fun i =>
+    (p.rows.getD i #[]).foldl (fun s (cv : Nat × K) => s + cv.2 * vget x (cv.1 - 1)) (0 : K) - vget p.rhs i
+
+/-- `Adj::q_bb(i,j)` (1-based) with the solver's `q0_xx` -/
+def qbb (p : Problem K) (q0 : Nat → Nat → Except ErrKind K) (i j : Nat) : Except ErrKind K :=
+  if 1 ≤ i ∧ i ≤ p.m ∧ 1 ≤ j ∧ j ≤ p.m then
+    (p.rows.getD (j - 1) #[]).foldlM (fun (sum : K) (cj : Nat × K) => do
+        let t ← (p.rows.getD (i - 1) #[]).foldlM (fun (t : K) (ci : Nat × K) => do
+            let q ← q0 ci.1 cj.1
+            pure (t + ci.2 * q)) (0 : K)
+        pure (sum + cj.2 * t)) (0 : K)
+  else .error .NotModelled
+
+/-- the regularisation the solver object ends up with -/
+def regOf : Reg → Reg
+  | .subset l => .subset l
+  | _ => .none
+
+end AdjM
+
+open AdjM Dn in
 /-- answers of a fresh `Adj` object configured with `alg` on problem `p` -/
-def adjSolve (alg : Alg) : Solver K := fun _ => .error .NotModelled
+def adjSolve (alg : Alg) : Solver K := fun p =>
+  let nm : Nat → Nat → Except ErrKind K := fun _ _ => .error .NotModelled
+  match alg with
+  | .env => do
+    let s ← solverOf (K := K) alg { p with reg := regOf p.reg }
+    pure { x := s.x, r := s.r, rtr := s.rtr, defect := s.defect, qxx := s.qxx, q0xx := nm,
+           qbb := qbb p s.q0xx, qbx := nm, lindep := fun _ => .error .NotModelled }
+  | _ => do
+    let (Ad, bd) ← homogenise p
+    let s ← solverOf (K := K) alg (dotProblem p Ad bd (regOf p.reg))
+    pure { x := s.x
+           r := origResiduals p s.x
+           rtr := sumFrom 0 p.m fun i => vget s.r i * vget s.r i
+           defect := s.defect, qxx := s.qxx, q0xx := nm
+           qbb := qbb p s.q0xx, qbx := nm, lindep := fun _ => .error .NotModelled }
 
 end Gama.Ls
